@@ -18,6 +18,13 @@ from .model import Func, Model, unparse
 
 def _is_none_test(t: ast.expr) -> ast.expr | None:
     """`S is None` / `(x := S) is None` -> S"""
+    if isinstance(t, ast.BoolOp) and isinstance(t.op, ast.Or):
+        # `S is None or <stale test on S>`: a slot that is refilled when a validation fails is still lazily filled
+        for v in t.values:
+            r = _is_none_test(v)
+            if r is not None:
+                return r
+        return None
     if isinstance(t, ast.Compare) and len(t.ops) == 1 and isinstance(t.ops[0], ast.Is) and isinstance(t.comparators[0], ast.Constant) and t.comparators[0].value is None:
         left = t.left
         if isinstance(left, ast.NamedExpr):
@@ -318,6 +325,13 @@ def lazy_fills(M: Model) -> Iterator[tuple[Func, ast.If, str, list[ast.expr]]]:
     and the `x = getattr(o, NAME, None); if x is None: ...; setattr(o, NAME, x)` form."""
     for ls in lazy_slots(M):
         vals = [st.value for b in ls.node.body for st in ast.walk(b) if isinstance(st, (ast.Assign, ast.AnnAssign)) and getattr(st, "value", None) is not None]
+        # locals the fill reads: what they were computed from counts as well (the slot's own alias excepted)
+        used = {x.id for v in vals for x in ast.walk(v) if isinstance(x, ast.Name)}
+        for st in own_nodes(ls.fn.node):
+            if isinstance(st, (ast.Assign, ast.AnnAssign)) and getattr(st, "value", None) is not None and getattr(st, "lineno", 0) < ls.node.lineno:
+                for t in _targets(st):
+                    if isinstance(t, ast.Name) and t.id in used and unparse(st.value) != ls.slot:
+                        vals.append(st.value)
         yield ls.fn, ls.node, ls.slot, vals
     for f in list(M.func_of_node.values()):
         if isinstance(f.node, ast.Lambda):
